@@ -71,12 +71,16 @@ func genValidSigner(t *rapid.T, kind string) Signer {
 			s.ForCert = rapid.IntRange(0, 3).Draw(t, "vCert") == 0
 			s.ExpireS = 3600
 		}
+		if s.Kind == "ecdsa" {
+			s.Curve = rapid.SampledFrom([]string{"", "", "p224", "p384", "p521"}).Draw(t, "vcurve")
+		}
 	} else {
 		s.Kind = rapid.SampledFrom([]string{"shaInt", "hmacInt", "hmacInt", "ecdsa", "sha", "hmac"}).Draw(t, "vsigner")
 		switch s.Kind {
 		case "ecdsa":
 			s.KeyName = &kn
 			s.ForInt = rapid.Bool().Draw(t, "vInt")
+			s.Curve = rapid.SampledFrom([]string{"", "", "p224", "p384", "p521"}).Draw(t, "vcurve")
 		case "hmac":
 			s.KeyName = &kn
 		case "shaInt", "hmacInt":
@@ -290,11 +294,18 @@ func execC12(c C12Case) (res evid.Result) {
 
 	// ---- (a) untampered
 	var wantCovered []byte
+	embeddedDigest, everyDigest := false, false
 	if signed {
 		if b.rec.calls != 1 {
 			return fail("ComputeSigValue was called %d times", b.rec.calls)
 		}
-		wantCovered = rp.signedPortion(b.joined)
+		wantCovered = rp.signedPortion(b.joined, false)
+		if rp.digestCount() > 1 {
+			embeddedDigest = true
+			if alt := rp.signedPortion(b.joined, true); !bytes.Equal(b.rec.covered, wantCovered) && bytes.Equal(b.rec.covered, alt) {
+				wantCovered, everyDigest = alt, true
+			}
+		}
 		if !bytes.Equal(b.rec.covered, wantCovered) {
 			return fail("the signer was asked to sign %s, the signed portion of the packet (by the packet format) is %s; packet %s", shortB(b.rec.covered), shortB(wantCovered), shortB(b.joined))
 		}
@@ -318,11 +329,6 @@ func execC12(c C12Case) (res evid.Result) {
 		want := sha256.Sum256(b.joined[rp.paramsN.Off:rp.root.End])
 		if !bytes.Equal(last.Value(b.joined), want[:]) {
 			return fail("parameters digest in the name is %x, SHA-256 over ApplicationParameters..end is %x", last.Value(b.joined), want)
-		}
-		for _, k := range kids[:len(kids)-1] {
-			if k.Type == tw.TParamsDigest {
-				return fail("harness: generated a second digest component")
-			}
 		}
 		digestSpan = span{last.ValOff, last.End}
 		if fn := b.final; len(fn) == 0 || !bytes.Equal(fn[len(fn)-1].Val, want[:]) {
@@ -369,10 +375,12 @@ func execC12(c C12Case) (res evid.Result) {
 		if p.Kind == "D" {
 			obligated = append(obligated, span{rp.nameNode.Off, rp.sigValueN.Off})
 		} else {
-			for _, k := range rp.nameNode.Children {
-				if k.Type != tw.TParamsDigest {
-					obligated = append(obligated, span{k.Off, k.End})
+			kids := rp.nameNode.Children
+			for i, k := range kids {
+				if k.Type == tw.TParamsDigest && (everyDigest || i == len(kids)-1) {
+					continue
 				}
+				obligated = append(obligated, span{k.Off, k.End})
 			}
 			obligated = append(obligated, span{rp.paramsN.Off, rp.sigValueN.Off})
 		}
@@ -445,6 +453,9 @@ func execC12(c C12Case) (res evid.Result) {
 	res.NonTrivial = counts["obligated:rejected-by-validator"]+counts["obligated:rejected-by-digest-check"] > 0 || (signed && optional && multiBuf)
 	if signed {
 		res.Classes = append(res.Classes, "signed")
+		if embeddedDigest {
+			res.Classes = append(res.Classes, map[bool]string{true: "signed-name-embeds-a-digest:not-covered", false: "signed-name-embeds-a-digest:covered"}[everyDigest])
+		}
 	}
 	if counts["obligated:rejected-by-validator"] > 0 {
 		res.Classes = append(res.Classes, "some-flip-rejected-by-validator")
